@@ -117,19 +117,24 @@ func (c *rconn) build(r reply, req []byte, n int) []byte {
 		mt := map[string]dhcpv4.MessageType{"offer": dhcpv4.MessageTypeOffer, "ack": dhcpv4.MessageTypeAck, "nak": dhcpv4.MessageTypeNak,
 			"decline": dhcpv4.MessageTypeDecline}[r.T]
 		p, _ := dhcpv4.NewReplyFromRequest(q, dhcpv4.WithMessageType(mt), dhcpv4.WithYourIP(net.IPv4(10, 0, byte(r.A), byte(100+n)).To4()),
-			dhcpv4.WithGeneric(dhcpv4.GenericOptionCode(224), []byte{byte(n)}), dhcpv4.WithLeaseTime(3600),
+			dhcpv4.WithGeneric(dhcpv4.GenericOptionCode(224), []byte{byte(n)}),
+			dhcpv4.WithLeaseTime([]uint32{3600, 0xffffffff, 0, 0x80000000, 86400}[(n+r.A)%5]),
 			dhcpv4.WithNetmask(net.CIDRMask(24, 32)))
 		if ip, ok := sidIP[r.Sid]; ok {
 			p.UpdateOption(dhcpv4.OptServerIdentifier(ip))
 		}
 		if !r.Ok {
-			switch n % 4 {
+			switch n % 6 {
 			case 0:
 				p.TransactionID[3] ^= 0x55
 			case 1:
 				p.ClientHWAddr = net.HardwareAddr{2, 0, 0, 0, 0, 9}
 			case 2:
 				p.OpCode = dhcpv4.OpcodeBootRequest
+			case 3:
+				p.ClientHWAddr = net.HardwareAddr{} // no hardware address at all (hlen 0)
+			case 4:
+				p.ClientHWAddr = append(append(net.HardwareAddr{}, mac...), 0, 0) // the client's address with two more bytes
 			default:
 				return append(p.ToBytes()[:240], 53, 9, 1) // undecodable
 			}
@@ -151,9 +156,13 @@ func (c *rconn) build(r reply, req []byte, n int) []byte {
 		sid = 2
 	}
 	m.AddOption(dhcpv6.OptServerID(&dhcpv6.DUIDEN{EnterpriseNumber: 4242, EnterpriseIdentifier: []byte{sid, byte(n)}}))
-	ia := &dhcpv6.OptIANA{T1: time.Hour, T2: 2 * time.Hour}
+	// lifetimes over the whole 32-bit range of seconds, "infinity" included
+	life := func(k int) time.Duration {
+		return time.Duration([]uint32{3600, 0xffffffff, 0, 0x80000000, 7200, 0xfffffffe}[(k+n+r.A)%6]) * time.Second
+	}
+	ia := &dhcpv6.OptIANA{T1: life(0), T2: life(1)}
 	copy(ia.IaId[:], mac[2:6])
-	ia.Options.Options = dhcpv6.Options{&dhcpv6.OptIAAddress{IPv6Addr: net.ParseIP(fmt.Sprintf("2001:db8::%d:%d", r.A, n)), PreferredLifetime: time.Hour, ValidLifetime: 2 * time.Hour}}
+	ia.Options.Options = dhcpv6.Options{&dhcpv6.OptIAAddress{IPv6Addr: net.ParseIP(fmt.Sprintf("2001:db8::%d:%d", r.A, n)), PreferredLifetime: life(2), ValidLifetime: life(3)}}
 	m.AddOption(ia)
 	m.AddOption(&dhcpv6.OptionGeneric{OptionCode: 65001, OptionData: []byte{byte(n)}})
 	if !r.Ok {
